@@ -72,6 +72,7 @@ func (s *scheduler) spawn(i *interpreter, fn value, args []value, pos token.Pos)
 		g.fnName = f.Fn.String()
 	}
 	s.all = append(s.all, g)
+	s.trace("spawn g%d = %s", g.id, g.fnName)
 	s.wg.Add(1)
 	go func() {
 		defer s.wg.Done()
@@ -107,6 +108,7 @@ func (s *scheduler) spawn(i *interpreter, fn value, args []value, pos token.Pos)
 				return
 			}
 			// normal goroutine exit
+			s.trace("g%d exits", g.id)
 			g.state = gDone
 			if g.id == 0 {
 				s.mainRet = true
@@ -165,7 +167,7 @@ func (s *scheduler) schedule(self *gor) {
 		return
 	}
 	var next *gor
-	if s.i.path.opts.Explore >= 0 && len(runnable) > 1 {
+	if s.i.path.opts.ExploreForced && s.i.path.opts.Explore >= 0 && len(runnable) > 1 {
 		next = runnable[s.i.path.choose(len(runnable), "sched")]
 	} else {
 		next = runnable[0]
@@ -186,6 +188,12 @@ func (s *scheduler) schedule(self *gor) {
 	}
 }
 
+func (s *scheduler) trace(format string, args ...interface{}) {
+	if s.i.path.opts.TraceSched {
+		s.i.path.res.Trace = append(s.i.path.res.Trace, fmt.Sprintf(format, args...))
+	}
+}
+
 func (s *scheduler) park(g *gor) {
 	select {
 	case <-g.wake:
@@ -200,7 +208,9 @@ func (s *scheduler) block(on string) {
 	g := s.cur
 	g.state = gBlocked
 	g.blockOn = on
+	s.trace("g%d blocks on %s%s", g.id, on, s.i.whereShort())
 	s.schedule(g)
+	s.trace("g%d resumes", g.id)
 }
 
 // yield is a scheduling point at a visible operation (explore mode only).
@@ -227,6 +237,7 @@ func (s *scheduler) yield(what string) {
 		return
 	}
 	s.preempt++
+	s.trace("g%d preempted at %s%s", g.id, what, s.i.whereShort())
 	k := 0
 	for _, o := range s.all {
 		if o != g && o.state == gRunnable {
